@@ -27,6 +27,8 @@ use tokio::{join, sync::broadcast};
 use tracing::{debug, error, info};
 
 pub use self::config::{Config, SyncStrategy};
+#[cfg(feature = "verif")]
+pub use self::config::MergePolicy as VerifMergePolicy;
 use self::{
     log::{LogDir, LogIterator, LogStatistics, LogWriter},
     utils::datafile_name,
@@ -244,6 +246,8 @@ impl Handle {
         if self.ctx.closed.load() {
             return Err(Error::Closed);
         }
+        #[cfg(feature = "verif")]
+        let _v = crate::verif::lock(crate::verif::WRITER, true);
         self.writer.lock().put(key, value)
     }
 
@@ -251,6 +255,8 @@ impl Handle {
         if self.ctx.closed.load() {
             return Err(Error::Closed);
         }
+        #[cfg(feature = "verif")]
+        let _v = crate::verif::lock(crate::verif::WRITER, true);
         self.writer.lock().delete(key)
     }
 
@@ -260,14 +266,20 @@ impl Handle {
         }
         let backoff = Backoff::new();
         loop {
+            #[cfg(feature = "verif")]
+            crate::verif::emit(crate::verif::Ev::Point("pool_pop"));
             if let Some(reader) = self.readers.pop() {
                 // Make a query with the key and return the context to the queue after we finish so
                 // other threads can make progress
                 let result = reader.get(key);
+                #[cfg(feature = "verif")]
+                crate::verif::emit(crate::verif::Ev::Point("pool_push"));
                 self.readers.push(reader).expect("unreachable error");
                 break result;
             }
             // Spin until we have access to a reader
+            #[cfg(feature = "verif")]
+            crate::verif::emit(crate::verif::Ev::SpinYield);
             backoff.spin();
         }
     }
@@ -276,6 +288,8 @@ impl Handle {
         if self.ctx.closed.load() {
             return Err(Error::Closed);
         }
+        #[cfg(feature = "verif")]
+        let _v = crate::verif::lock(crate::verif::WRITER, true);
         self.writer.lock().merge()
     }
 
@@ -283,11 +297,72 @@ impl Handle {
         if self.ctx.closed.load() {
             return Err(Error::Closed);
         }
+        #[cfg(feature = "verif")]
+        let _v = crate::verif::lock(crate::verif::WRITER, true);
         self.writer.lock().sync()
     }
 
     fn close(&self) {
         self.ctx.closed.store(true)
+    }
+}
+
+#[cfg(feature = "verif")]
+impl Handle {
+    /// Run one merge pass now (verification hook).
+    pub fn verif_merge(&self) -> Result<(), Error> {
+        self.merge()
+    }
+
+    /// Sync the active file now (verification hook).
+    pub fn verif_sync(&self) -> Result<(), Error> {
+        self.sync()
+    }
+
+    /// Evaluate the merge triggers (verification hook).
+    pub fn verif_can_merge(&self) -> bool {
+        self.ctx.can_merge()
+    }
+
+    /// The file ids a merge would select right now (verification hook).
+    pub fn verif_fileids_to_merge(&self) -> Result<Vec<u64>, Error> {
+        let _w = self.writer.lock();
+        Ok(self
+            .ctx
+            .fileids_to_merge(self.ctx.conf.path.as_path())?
+            .into_iter()
+            .collect())
+    }
+
+    /// The KeyDir shard a key lives in (verification hook).
+    pub fn verif_shard_of(&self, key: &Bytes) -> usize {
+        self.ctx.keydir.determine_map(key)
+    }
+
+    /// Snapshot the in-memory state, taken under the writer mutex (verification hook).
+    pub fn verif_dump(&self) -> crate::verif::Dump {
+        let w = self.writer.lock();
+        let mut keydir = self
+            .ctx
+            .keydir
+            .iter()
+            .map(|e| (e.key().to_vec(), e.fileid, e.pos, e.len))
+            .collect::<Vec<_>>();
+        keydir.sort();
+        let mut stats = self
+            .ctx
+            .stats
+            .iter()
+            .map(|e| (*e.key(), e.live_keys, e.dead_keys, e.dead_bytes))
+            .collect::<Vec<_>>();
+        stats.sort_unstable();
+        crate::verif::Dump {
+            keydir,
+            stats,
+            active_fileid: w.active_fileid,
+            written_bytes: w.written_bytes,
+            readers: (self.readers.len(), self.readers.capacity()),
+        }
     }
 }
 
@@ -348,6 +423,8 @@ impl Writer {
         // Write to disk
         let keydir_entry = self.write(utils::timestamp(), key.clone(), Some(value))?;
         // If we overwrite an existing value, update the storage statistics
+        #[cfg(feature = "verif")]
+        let _v = crate::verif::lock(crate::verif::kd(self.ctx.keydir.determine_map(&key)), true);
         if let Some(prev_keydir_entry) = self.ctx.keydir.insert(key, keydir_entry) {
             self.ctx
                 .stats
@@ -367,6 +444,8 @@ impl Writer {
         // Write to disk
         self.write(utils::timestamp(), key.clone(), None)?;
         // If we overwrite an existing value, update the storage statistics
+        #[cfg(feature = "verif")]
+        let _v = crate::verif::lock(crate::verif::kd(self.ctx.keydir.determine_map(&key)), true);
         match self.ctx.keydir.remove(&key) {
             Some((_, prev_keydir_entry)) => {
                 self.ctx
@@ -460,12 +539,18 @@ impl Writer {
                 LogWriter::new(log::create(utils::hintfile_name(path, merge_fileid))?)?;
 
             // Only go through entries whose values are located within the merged files.
+            #[cfg(feature = "verif")]
+            let _v = crate::verif::lock(crate::verif::KD_ITER, true);
             for mut keydir_entry in self
                 .ctx
                 .keydir
                 .iter_mut()
                 .filter(|e| fileids_to_merge.contains(&e.fileid))
             {
+                #[cfg(feature = "verif")]
+                crate::verif::emit(crate::verif::Ev::MergeAt(
+                    self.ctx.keydir.determine_map(keydir_entry.key()) as u64,
+                ));
                 // SAFETY: We ensure in `BitcaskWriter` that all log entries given by
                 // KeyDir are written disk, thus the readers can savely use memmap to
                 // access the data file randomly.
@@ -507,7 +592,11 @@ impl Writer {
                         LogWriter::new(log::create(utils::hintfile_name(path, merge_fileid))?)?;
                     debug!(merge_fileid, "new merge file");
                 }
+                #[cfg(feature = "verif")]
+                crate::verif::emit(crate::verif::Ev::Acquire(crate::verif::KD_ITER, true));
             }
+            #[cfg(feature = "verif")]
+            drop(_v);
         }
 
         // Remove stale files from system and storage statistics
@@ -557,6 +646,8 @@ impl Reader {
     /// Errors from I/O operations and serializations/deserializations will be propagated.
     #[tracing::instrument(level = "debug", skip(self))]
     fn get(&self, key: Bytes) -> Result<Option<Bytes>, Error> {
+        #[cfg(feature = "verif")]
+        let _v = crate::verif::lock(crate::verif::kd(self.ctx.keydir.determine_map(&key)), false);
         match self.ctx.keydir.get(&key) {
             Some(keydir_entry) => {
                 // SAFETY: We have taken `keydir_entry` from KeyDir which is ensured to point to
@@ -638,8 +729,12 @@ async fn merge_on_interval(handle: Handle, mut shutdown: Shutdown) -> Result<(),
                 return Ok(());
             },
         };
+        #[cfg(feature = "verif")]
+        crate::verif::emit(crate::verif::Ev::Point("bg:merge:tick"));
         if handle.ctx.can_merge() {
             let handle = handle.clone();
+            #[cfg(feature = "verif")]
+            crate::verif::emit(crate::verif::Ev::Point("bg:merge:go"));
             if let Err(e) = tokio::task::spawn_blocking(move || handle.merge()).await? {
                 error!(cause=?e, "merge error");
             }
@@ -663,6 +758,8 @@ async fn sync_on_interval(handle: Handle, mut shutdown: Shutdown) -> Result<(), 
                     return Ok(());
                 },
             };
+            #[cfg(feature = "verif")]
+            crate::verif::emit(crate::verif::Ev::Point("bg:sync:tick"));
             let handle = handle.clone();
             if let Err(e) = tokio::task::spawn_blocking(move || handle.sync()).await? {
                 error!(cause=?e, "sync error");
